@@ -26,7 +26,7 @@ import (
 
 func init() {
 	checks["C18"] = &Check{
-		Shards: func(tier string) int { return 10 },
+		Shards: func(tier string) int { return 12 },
 		Run:    c18run,
 		Finalize: func(m *shardOut, r *ev.Run) {
 			r.Cov["states"] = m.Counts["cells"]
@@ -34,7 +34,7 @@ func init() {
 			r.Cov["traces_validated_against_impl"] = m.Counts["cells"]
 			r.Cov["evaluations"] = m.Counts["cells"]
 			r.Cov["distinct_nontrivial"] = len(m.Outc)
-			r.Cov["rule"] = "finite matrix on the real stack: TLS configuration shape (certificate via Certificates / GetCertificate / GetConfigForClient; client certificate required and verified; the test directory's own default-TLS and WithMTLS configurations) x client behaviour (plaintext request of each of the 7 operations, 64 arbitrary bytes, connect and close, TLS without certificate, certificate from another CA, certificate from another call of the library's own GetTLSConfig(WithMTLS), right certificate) x shape of Run's option list (nil / other options before and after WithTLSConfig), each next to a conforming bystander that binds before, while and after; the handler log must have no entry for a connection that does not satisfy the configuration. The interleavings of failing handshakes with bystander traffic are explored by the SCHED part (coverage key sched_part)."
+			r.Cov["rule"] = "finite matrix on the real stack: TLS configuration shape (certificate via Certificates / GetCertificate / GetConfigForClient; client certificate required and verified; the test directory's own default-TLS and WithMTLS configurations) x client behaviour (plaintext request of each of the 7 operations, 64 arbitrary bytes, connect and close, TLS without certificate, certificate from another CA, certificate from another call of the library's own GetTLSConfig(WithMTLS), certificate of the right CA but another subject, TLS 1.2-only client, right certificate; two configurations carry a VerifyConnection policy: one allowed subject / TLS 1.3 only) x shape of Run's option list (nil / other options before and after WithTLSConfig), each next to a conforming bystander that binds before, while and after; the handler log must have no entry for a connection that does not satisfy the configuration. The interleavings of failing handshakes with bystander traffic are explored by the SCHED part (coverage key sched_part)."
 			r.Cov["samples"] = m.Samp
 			r.Cov["outcomes"] = m.Outc
 			r.Cov["exhaustive"] = !m.CapHit
@@ -49,11 +49,11 @@ func init() {
 }
 
 type rpki struct {
-	pool            *x509.CertPool
-	srv, cli, other tls.Certificate
-	clientBase      *tls.Config
-	helperOnce      sync.Once
-	helperCert      *tls.Certificate
+	pool                  *x509.CertPool
+	srv, cli, cli2, other tls.Certificate
+	clientBase            *tls.Config
+	helperOnce            sync.Once
+	helperCert            *tls.Certificate
 }
 
 func mkRealPKI() *rpki {
@@ -89,6 +89,7 @@ func mkRealPKI() *rpki {
 	p.pool.AddCert(ca)
 	p.srv = leaf(ca, cak, "localhost", true)
 	p.cli = leaf(ca, cak, "client", false)
+	p.cli2 = leaf(ca, cak, "client2", false) // same CA, another subject
 	p.other = leaf(oca, ocak, "intruder", false)
 	p.clientBase = &tls.Config{RootCAs: p.pool, ServerName: "localhost"}
 	return p
@@ -262,10 +263,15 @@ func c18cell(c *Ctx, cfgName string, s *c18srv, p *rpki, right *tls.Certificate,
 			cert = &p.other
 		case "tls-other-helper-ca":
 			cert = p.helperOther()
-		case "tls-right-cert":
+		case "tls-right-ca-other-subject":
+			cert = &p.cli2
+		case "tls-right-cert", "tls12-only-right-cert":
 			cert = right
 		}
 		ccfg := s.client(cert)
+		if beh == "tls12-only-right-cert" {
+			ccfg.MaxVersion = tls.VersionTLS12
+		}
 		if beh == "tls-other-ca" || beh == "tls-other-helper-ca" {
 			// present the foreign certificate even though the server's acceptable-CA list does not name its issuer
 			forced := *cert
@@ -324,52 +330,94 @@ func c18cell(c *Ctx, cfgName string, s *c18srv, p *rpki, right *tls.Certificate,
 
 func c18run(c *Ctx) {
 	p := mkRealPKI()
-	behaviours := []string{"plaintext-bind", "plaintext-search", "plaintext-modify", "plaintext-add", "plaintext-delete", "plaintext-extended", "plaintext-unbind", "plaintext-bytes", "connect-close", "tls-no-cert", "tls-other-ca", "tls-other-helper-ca", "tls-right-cert"}
+	behaviours := []string{"plaintext-bind", "plaintext-search", "plaintext-modify", "plaintext-add", "plaintext-delete", "plaintext-extended", "plaintext-unbind", "plaintext-bytes", "connect-close", "tls-no-cert", "tls-other-ca", "tls-other-helper-ca", "tls-right-ca-other-subject", "tls12-only-right-cert", "tls-right-cert"}
 	base := func() *tls.Config { return &tls.Config{MinVersion: tls.VersionTLS12} }
 	type cfgT struct {
 		name  string
 		mk    func() *tls.Config
 		mtls  bool
 		shape string
+		// policy: what the configuration's own VerifyConnection callback demands on top ("" = nothing,
+		// "cn=client" = the peer certificate's subject, "tls13" = the protocol version)
+		policy string
 	}
 	srvCert := p.srv
 	cfgs := []cfgT{
-		{"server-auth, Certificates", func() *tls.Config { c := base(); c.Certificates = []tls.Certificate{srvCert}; return c }, false, ""},
-		{"server-auth, Certificates, Run(nil option, WithTLSConfig)", func() *tls.Config { c := base(); c.Certificates = []tls.Certificate{srvCert}; return c }, false, "nil-first"},
-		{"server-auth, Certificates, Run(WithTLSConfig, nil option)", func() *tls.Config { c := base(); c.Certificates = []tls.Certificate{srvCert}; return c }, false, "nil-last"},
+		{"server-auth, Certificates", func() *tls.Config { c := base(); c.Certificates = []tls.Certificate{srvCert}; return c }, false, "", ""},
+		{"server-auth, Certificates, Run(nil option, WithTLSConfig)", func() *tls.Config { c := base(); c.Certificates = []tls.Certificate{srvCert}; return c }, false, "nil-first", ""},
+		{"server-auth, Certificates, Run(WithTLSConfig, nil option)", func() *tls.Config { c := base(); c.Certificates = []tls.Certificate{srvCert}; return c }, false, "nil-last", ""},
 		{"client certificate required, Certificates, Run(other options around WithTLSConfig)", func() *tls.Config {
 			c := base()
 			c.Certificates = []tls.Certificate{srvCert}
 			c.ClientAuth = tls.RequireAndVerifyClientCert
 			c.ClientCAs = p.pool
 			return c
-		}, true, "other-first"},
+		}, true, "other-first", ""},
 		{"server-auth, GetCertificate", func() *tls.Config {
 			c := base()
 			c.GetCertificate = func(*tls.ClientHelloInfo) (*tls.Certificate, error) { return &srvCert, nil }
 			return c
-		}, false, ""},
+		}, false, "", ""},
 		{"server-auth, GetConfigForClient", func() *tls.Config {
 			c := base()
 			inner := base()
 			inner.Certificates = []tls.Certificate{srvCert}
 			c.GetConfigForClient = func(*tls.ClientHelloInfo) (*tls.Config, error) { return inner, nil }
 			return c
-		}, false, ""},
+		}, false, "", ""},
 		{"client certificate required, Certificates", func() *tls.Config {
 			c := base()
 			c.Certificates = []tls.Certificate{srvCert}
 			c.ClientAuth = tls.RequireAndVerifyClientCert
 			c.ClientCAs = p.pool
 			return c
-		}, true, ""},
+		}, true, "", ""},
 		{"client certificate required, GetCertificate", func() *tls.Config {
 			c := base()
 			c.GetCertificate = func(*tls.ClientHelloInfo) (*tls.Certificate, error) { return &srvCert, nil }
 			c.ClientAuth = tls.RequireAndVerifyClientCert
 			c.ClientCAs = p.pool
 			return c
-		}, true, ""},
+		}, true, "", ""},
+	}
+	cfgs = append(cfgs,
+		cfgT{"client certificate required, VerifyConnection allows one subject", func() *tls.Config {
+			c := base()
+			c.Certificates = []tls.Certificate{srvCert}
+			c.ClientAuth = tls.RequireAndVerifyClientCert
+			c.ClientCAs = p.pool
+			c.VerifyConnection = func(cs tls.ConnectionState) error {
+				if len(cs.PeerCertificates) == 0 || cs.PeerCertificates[0].Subject.CommonName != "client" {
+					return fmt.Errorf("subject not allowed")
+				}
+				return nil
+			}
+			return c
+		}, true, "", "cn=client"},
+		cfgT{"server-auth, VerifyConnection demands TLS 1.3", func() *tls.Config {
+			c := base()
+			c.Certificates = []tls.Certificate{srvCert}
+			c.VerifyConnection = func(cs tls.ConnectionState) error {
+				if cs.Version < tls.VersionTLS13 {
+					return fmt.Errorf("TLS 1.3 required")
+				}
+				return nil
+			}
+			return c
+		}, false, "", "tls13"})
+	// satisfies: does a client behaviour satisfy a configuration?
+	satisfies := func(mtls bool, policy, b string) bool {
+		switch b {
+		case "tls-right-cert":
+			return true
+		case "tls12-only-right-cert":
+			return policy != "tls13"
+		case "tls-right-ca-other-subject":
+			return policy != "cn=client"
+		case "tls-no-cert", "tls-other-ca", "tls-other-helper-ca":
+			return !mtls
+		}
+		return false
 	}
 	for _, cf := range cfgs {
 		if !c.Mine() {
@@ -377,8 +425,7 @@ func c18run(c *Ctx) {
 		}
 		s := startOwn(cf.mk(), p, cf.shape)
 		for _, b := range behaviours {
-			sat := b == "tls-right-cert" || (!cf.mtls && (b == "tls-no-cert" || b == "tls-other-ca" || b == "tls-other-helper-ca"))
-			c18cell(c, cf.name, s, p, &p.cli, b, sat, false)
+			c18cell(c, cf.name, s, p, &p.cli, b, satisfies(cf.mtls, cf.policy, b), false)
 		}
 		s.stop()
 	}
@@ -415,11 +462,13 @@ func c18run(c *Ctx) {
 				return cc
 			}, creds: [2]string{users[0].DN, "password"}}
 		for _, b := range behaviours {
-			if b == "tls-right-cert" && !dirMTLS {
+			if (b == "tls-right-cert" || b == "tls12-only-right-cert") && !dirMTLS {
 				continue
 			}
-			sat := b == "tls-right-cert" || (!dirMTLS && (b == "tls-no-cert" || b == "tls-other-ca" || b == "tls-other-helper-ca"))
-			c18cell(c, name, s, p, right, b, sat, true)
+			if b == "tls-right-ca-other-subject" {
+				continue // the directory's CA issues one client certificate only
+			}
+			c18cell(c, name, s, p, right, b, satisfies(dirMTLS, "", b), true)
 		}
 		d.Stop()
 	}
